@@ -54,7 +54,13 @@ func fullCompare(c *pbt.C, key string, b, cn *sim.Node) {
 }
 
 func TestC06(t *testing.T) {
-	pbt.Check(t, "C06", func(c *pbt.C) {
+	pbt.Check(t, "C06", func(c *pbt.C) { reorgScenario(c, "C06", fullCompare) })
+}
+
+// reorgScenario builds prefix / X / Y, lets B adopt X then Y, C only Y, and calls check(B, C)
+// after the switch and again after further common momentums.
+func reorgScenario(c *pbt.C, id string, check func(c *pbt.C, key string, b, cn *sim.Node)) {
+	{
 		h := sim.NewHist(c, genSpec(c), genWorldOpts(c))
 		h.Intents = sim.DefaultIntents()
 		h.AckDepthMax = 3
@@ -68,13 +74,13 @@ func TestC06(t *testing.T) {
 		a2 := h.W.AddNode("A2", true)
 		if forkAt > 1 {
 			if _, err := a2.Bridge.InsertChain(h.A.Range(2, forkAt)); err != nil {
-				c.Failf("C06/setup", "second producer cannot sync the prefix: %v", err)
+				c.Failf(id+"/setup", "second producer cannot sync the prefix: %v", err)
 			}
 		}
 		b := h.W.AddNode("B", false)
 		if forkAt > 1 {
 			if _, err := b.Bridge.InsertChain(h.A.Range(2, forkAt)); err != nil {
-				c.Failf("C06/setup", "follower cannot sync the prefix: %v", err)
+				c.Failf(id+"/setup", "follower cannot sync the prefix: %v", err)
 			}
 		}
 		h2 := sim.NewHistOn(c, h.W, a2, h)
@@ -95,7 +101,7 @@ func TestC06(t *testing.T) {
 		c.Note("fork at %d: X to %d, Y to %d", forkAt, topX, topY)
 		// B adopts X
 		if _, err := b.Bridge.InsertChain(h.A.Range(forkAt+1, topX)); err != nil {
-			c.Failf("C06/setup", "follower refused honest branch X: %v", err)
+			c.Failf(id+"/setup", "follower refused honest branch X: %v", err)
 		}
 		// X's pool leftovers reach B by gossip
 		var pool []*nom.AccountBlock
@@ -133,14 +139,14 @@ func TestC06(t *testing.T) {
 		idx, err := b.Bridge.InsertChain(a2.Range(forkAt+1, topY))
 		c.Note("B: InsertChain(Y %d..%d) -> %d %v", forkAt+1, topY, idx, err)
 		if err != nil {
-			c.Failf("C06/switch-refused", "follower refused the strictly longer honest branch (fork depth %d): %v", lenX, err)
+			c.Failf(id+"/switch-refused", "follower refused the strictly longer honest branch (fork depth %d): %v", lenX, err)
 		}
 		// the reference node saw only prefix + Y
 		cn := h.W.AddNode("C", false)
 		if _, err := cn.Bridge.InsertChain(a2.Range(2, topY)); err != nil {
-			c.Failf("C06/setup", "reference node refused prefix+Y: %v", err)
+			c.Failf(id+"/setup", "reference node refused prefix+Y: %v", err)
 		}
-		fullCompare(c, "C06", b, cn)
+		check(c, id, b, cn)
 		// pool of B must be a pool C can have: C accepts every block of it
 		bp := b.Chain.GetAllUncommittedAccountBlocks()
 		for _, blk := range bp {
@@ -152,7 +158,7 @@ func TestC06(t *testing.T) {
 				continue
 			}
 			if err := cn.Bridge.AddAccountBlocks(wb); err != nil {
-				c.Failf("C06/pool", "after the switch B's pool holds block %v/%d which a node that only saw the adopted branch refuses: %v",
+				c.Failf(id+"/pool", "after the switch B's pool holds block %v/%d which a node that only saw the adopted branch refuses: %v",
 					blk.Address, blk.Height, err)
 			}
 		}
@@ -167,18 +173,18 @@ func TestC06(t *testing.T) {
 		}
 		more := a2.Range(topY+1, a2.Height())
 		if _, err := b.Bridge.InsertChain(more); err != nil {
-			c.Failf("C06/after-switch", "B refused honest momentums after the switch: %v", err)
+			c.Failf(id+"/after-switch", "B refused honest momentums after the switch: %v", err)
 		}
 		if _, err := cn.Bridge.InsertChain(a2.Range(topY+1, a2.Height())); err != nil {
-			c.Failf("C06/setup", "reference node refused honest momentums: %v", err)
+			c.Failf(id+"/setup", "reference node refused honest momentums: %v", err)
 		}
-		fullCompare(c, "C06", b, cn)
+		check(c, id, b, cn)
 		c.Class(fmt.Sprintf("fork-depth-%s", bucket(lenX)))
 		if lenX >= 2 && views >= 1 {
 			c.NonTrivial()
 		}
 		c.R.Count("momentums", h.Momentums+h2.Momentums)
-	})
+	}
 }
 
 func bucket(n int) string {
